@@ -79,6 +79,24 @@ Module Spec.
       match r with Ok out => convexnb tol n grid v p out | _ => false end
     else match r with Err _ => true | _ => false end.
 
+  (* the multi-affine test function of the harness:  c + prod_i (b_i + a_i x_i)  (ab = [(a_1, b_1); ...]) *)
+  Fixpoint prodlin (ab : list (Q * Q)) (p : list Q) : Q :=
+    match ab, p with
+    | (a, b) :: r, x :: pr => ((b + a * x) * prodlin r pr)%Q
+    | _, _ => 1%Q
+    end.
+  Definition mlinF (c : Q) (ab : list (Q * Q)) (p : list Q) : Q := (c + prodlin ab p)%Q.
+  (* a table sampled from mlinF must be reproduced: |out - F(p)| <= tol * (1 + |min| + |max| of the surrounding values) *)
+  Definition check_mlin (tol : Q) (n : nat) (grid : list (list Q)) (v : @arr QN n) (c : Q) (ab : list (Q * Q))
+             (p : list Q) (r : res Q) : bool :=
+    if negb (List.length p =? n) then true
+    else if negb (insideb n grid p) then true
+    else match r, block n grid v p with
+         | Ok out, Ok (vals, _) =>
+             Qle_bool (Qabs (out - mlinF c ab p)) (tol * (1 + Qabs (lmin vals) + Qabs (lmax vals)))
+         | _, _ => false
+         end.
+
   Definition closeb (tol : Q) (a b : res Q) : bool :=
     match a, b with
     | Ok x, Ok y => Qle_bool (Qabs (x - y)) (tol * (1 + Qabs x))
@@ -144,6 +162,7 @@ Fixpoint first_bad {A} (f : A -> bool) (l : list A) (i : nat) : option nat :=
   end.
 
 Definition spec_generic (n : nat) (grid : list (list float)) (v : @arr FN n) (pts : list (list float))
+           (ml : option (float * list (float * float)))
            (sp nd : list (res float * res float)) : string :=
   if negb (forallb (forallb finiteb) grid && arr_finite n v && forallb (forallb finiteb) pts
            && forallb (fun g => 2 <=? List.length g) grid) then "unspecified"
@@ -154,6 +173,19 @@ Definition spec_generic (n : nat) (grid : list (list float)) (v : @arr FN n) (pt
         Spec.check_interpolate tolQ n gq vq (map F2Q (fst pr)) (resQ (fst (snd pr))) in
     let agree (pr : (res float * res float) * (res float * res float)) :=
         Spec.closeb tolQ (resQ (fst (fst pr))) (resQ (fst (snd pr))) in
+    let chkm (pr : list float * (res float * res float)) :=
+        match ml with
+        | None => true
+        | Some (c, ab) =>
+            Spec.check_mlin tolQ n gq vq (F2Q c) (map (fun x => (F2Q (fst x), F2Q (snd x))) ab)
+                            (map F2Q (fst pr)) (resQ (fst (snd pr)))
+        end in
+    match first_bad chkm (combine pts nd) 0 with
+    | Some i => "REJECT nd not exact on a multilinear table at query " ++ show_nat i
+    | None =>
+    match first_bad chkm (combine pts sp) 0 with
+    | Some i => "REJECT specialised not exact on a multilinear table at query " ++ show_nat i
+    | None =>
     match first_bad chk1 (combine pts nd) 0 with
     | Some i => "REJECT nd query " ++ show_nat i
     | None =>
@@ -165,8 +197,10 @@ Definition spec_generic (n : nat) (grid : list (list float)) (v : @arr FN n) (pt
             | None => (match sp with [] => "-" | _ => show_pts sp end) ++ " | " ++ show_pts nd
             end
         end
+    end
+    end
     end.
-Definition line_sg id n grid v pts sp nd := line "S" id (spec_generic n grid v pts sp nd).
+Definition line_sg id n grid v pts ml sp nd := line "S" id (spec_generic n grid v pts ml sp nd).
 
 (* ---------- speed / grade stream ---------- *)
 (* finite function given by samples; a missing sample is visible as an Err of its own class *)
